@@ -270,3 +270,28 @@ pub(crate) fn mk_best(message: AnnounceMessage, age: Duration, receiver: PortIde
 pub(crate) fn best_message(b: &BestAnnounceMessage) -> &AnnounceMessage {
     &b.message
 }
+
+pub(crate) fn best_age(b: &BestAnnounceMessage) -> Duration {
+    b.age
+}
+
+pub(crate) fn best_identity(b: &BestAnnounceMessage) -> PortIdentity {
+    b.identity
+}
+
+/// Contract of `Bmca::take_best_port_announce_message` (DESIGN: Erbest stub): either no qualified
+/// foreign master, or an arbitrary qualified Announce received on this port - sender is not the own
+/// clock, stepsRemoved < 255, sender accepted by the port's acceptable master list - with an
+/// arbitrary non-negative age. What the list-level code does to obtain it is outside the claim (C06).
+pub(crate) fn take_stub<A: AcceptableMasterList>(b: &mut Bmca<A>) -> Option<BestAnnounceMessage> {
+    if kani::any() {
+        return None;
+    }
+    let m = any_announce();
+    kani::assume(m.header.source_port_identity.clock_identity != b.own_port_identity.clock_identity);
+    kani::assume(m.steps_removed < 255);
+    kani::assume(b.acceptable_master_list.is_acceptable(m.header.source_port_identity.clock_identity));
+    let age = any_duration_bits(64);
+    kani::assume(age >= Duration::ZERO);
+    Some(BestAnnounceMessage { header: m.header, message: m, age, identity: b.own_port_identity })
+}
